@@ -155,3 +155,27 @@ pub fn par_map<T: Send + Sync, R: Send>(items: &[T], f: impl Fn(&T) -> R + Sync)
         handles.into_iter().flat_map(|h| h.join().expect("worker thread")).collect()
     })
 }
+
+/// civil fields of a day number (days since 1970-01-01, proleptic Gregorian; Hinnant's civil_from_days),
+/// as the calendar modules carry them: (y, m, d, weekday with Monday = 0, day of year).  The trace
+/// specs re-validate them with Calendar!ValidCivil, so this arithmetic is not trusted.
+pub fn civil(day: u64) -> (i64, i64, i64, i64, i64) {
+    let z = day as i64 + 719_468;
+    let era = z.div_euclid(146_097);
+    let doe = z.rem_euclid(146_097);
+    let yoe = (doe - doe / 1460 + doe / 36_524 - doe / 146_096) / 365;
+    let doy = doe - (365 * yoe + yoe / 4 - yoe / 100);
+    let mp = (5 * doy + 2) / 153;
+    let d = doy - (153 * mp + 2) / 5 + 1;
+    let m = if mp < 10 { mp + 3 } else { mp - 9 };
+    let y = yoe + era * 400 + if m <= 2 { 1 } else { 0 };
+    let leap = (y % 4 == 0 && y % 100 != 0) || y % 400 == 0;
+    let cum = [0, 31, 59, 90, 120, 151, 181, 212, 243, 273, 304, 334];
+    let yd = cum[(m - 1) as usize] + d + if leap && m > 2 { 1 } else { 0 };
+    (y, m, d, (day as i64 + 3) % 7, yd)
+}
+
+pub fn civil_json(day: u64) -> Value {
+    let (y, m, d, wd, yd) = civil(day);
+    json!({"day": day, "y": y, "m": m, "d": d, "wd": wd, "yd": yd})
+}
